@@ -132,3 +132,102 @@ func TestGovcReplay(t *testing.T) {
 		},
 	}}, harnesses...)
 }
+
+func init() {
+	harnesses = append([]*harness{{
+		name:      "multiplex pool replay (GOAWAY with a request in flight, the slot is re-initialised, then the drained connection closes)",
+		modelFree: true,
+		match: func(o *Obligation) bool {
+			return strings.HasSuffix(o.Func, "xprotocol.(*poolMultiplex).onConnectionEvent") && strings.Contains(o.Name, "successorKept")
+		},
+		run: func(eng *Engine, o *Obligation) *ReplayOutcome {
+			src := `package xprotocol
+
+import (
+	"context"
+	"fmt"
+	"net"
+	"testing"
+	"time"
+
+	"mosn.io/api"
+	"mosn.io/mosn/pkg/protocol/xprotocol/dubbo"
+	"mosn.io/mosn/pkg/types"
+	"mosn.io/mosn/pkg/upstream/cluster"
+	"mosn.io/pkg/variable"
+)
+
+// The failed obligation says: the close event of a client that is no longer the slot's entry may change the entry.
+// Replay on the real pool: one connection with a request in flight sees GOAWAY, the next CheckAndInit dials the
+// successor into the slot, then the old (drained) connection is closed by the peer.
+func TestGovcReplay(t *testing.T) {
+	ln, err := net.Listen("tcp", "127.0.0.1:0")
+	if err != nil {
+		fmt.Println("REPLAY-INCONCLUSIVE listen:", err)
+		return
+	}
+	defer ln.Close()
+	go func() {
+		for {
+			c, err := ln.Accept()
+			if err != nil {
+				return
+			}
+			defer c.Close()
+		}
+	}()
+	addr := ln.Addr().String()
+	ctx := variable.NewVariableContext(context.Background())
+	cl := basicCluster(addr, []string{addr})
+	host := cluster.NewSimpleHost(cl.Hosts[0], cluster.NewCluster(cl).Snapshot().ClusterInfo())
+	p := connpool{protocol: api.ProtocolName(dubbo.ProtocolName), tlsHash: &types.HashValue{}, codec: &dubbo.XCodec{}}
+	p.host.Store(host)
+	pool := NewPoolMultiplex(&p).(*poolMultiplex)
+	key := api.ProtocolName(dubbo.ProtocolName)
+	for i := 0; i < 100 && !pool.CheckAndInit(ctx); i++ {
+		time.Sleep(20 * time.Millisecond)
+	}
+	idx := int64(0)
+	if len(pool.activeClients) > 1 {
+		idx = getClientIDFromDownStreamCtx(ctx) // the slot CheckAndInit chose for this downstream context
+	}
+	if idx < 0 {
+		fmt.Println("REPLAY-INCONCLUSIVE no slot was chosen")
+		return
+	}
+	v, ok := pool.activeClients[idx].Load(key)
+	if !ok {
+		fmt.Println("REPLAY-INCONCLUSIVE the pool did not connect")
+		return
+	}
+	old := v.(*activeClientMultiplex)
+	if _, _, reason := pool.NewStream(ctx, &receiver{}); reason != "" {
+		fmt.Println("REPLAY-INCONCLUSIVE NewStream:", reason)
+		return
+	}
+	old.OnGoAway() // a request is in flight: the connection is kept to drain
+	for i := 0; i < 100 && !pool.CheckAndInit(ctx); i++ {
+		time.Sleep(20 * time.Millisecond)
+	}
+	v, ok = pool.activeClients[idx].Load(key)
+	if !ok || v.(*activeClientMultiplex) == old {
+		fmt.Println("REPLAY-INCONCLUSIVE the slot was not re-initialised with a successor")
+		return
+	}
+	successor := v.(*activeClientMultiplex)
+	// the peer closes the drained connection at last
+	old.host.Connection.Close(api.NoFlush, api.RemoteClose)
+	time.Sleep(50 * time.Millisecond)
+	v, ok = pool.activeClients[idx].Load(key)
+	if !ok || v.(*activeClientMultiplex) != successor {
+		fmt.Printf("REPLAY-CONFIRMED GOAWAY with a request in flight, CheckAndInit stored the successor over the draining client, then the old connection closed: its close event deleted the slot's entry although that entry was the SUCCESSOR (entry present afterwards: %v; the successor's connection is still %v) - the healthy connection is no longer on the pool's books and the next request dials a third one\n", ok, successor.host.Connection.State())
+		return
+	}
+	fmt.Println("REPLAY-NOT-REPRODUCED the successor is still the slot's entry after the old connection closed")
+}
+`
+			out, _ := runOverlayTest("pkg/stream/xprotocol", src, "^TestGovcReplay$")
+			return outcomeFromOutput(src, out)
+		},
+	}}, harnesses...)
+}
